@@ -91,6 +91,7 @@ VH_NOINSTR int main(int argc, char** argv) {
   int k = atoi(argv[1]);
   vh_parse(argv[2]);
   fiber_manager_init(k);
+  VH_DIRTY(rw);
   fiber_rwlock_init(&rw);
   vr_reg(&rw.state.blob, 8, "rw");
   vr_reg((void*)&rw.read_waiters.head, 8, "RH");
